@@ -12,6 +12,7 @@
 #include <BayesFilters/Logger.h>
 #include <BayesFilters/Skipper.h>
 
+#include <atomic>
 #include <condition_variable>
 #include <mutex>
 #include <string>
@@ -66,7 +67,7 @@ protected:
 private:
     void filtering_recursion();
 
-    unsigned int filtering_step_ = 0;
+    std::atomic<unsigned int> filtering_step_{0};
 
     std::thread filtering_thread_;
 
@@ -74,11 +75,11 @@ private:
 
     std::condition_variable cv_run_;
 
-    bool run_ = false;
+    std::atomic<bool> run_{false};
 
-    bool reset_ = false;
+    std::atomic<bool> reset_{false};
 
-    bool teardown_ = false;
+    std::atomic<bool> teardown_{false};
 };
 
 #endif /* FILTERINGALGORITHM_H */
